@@ -95,4 +95,20 @@ example : readL [("a.kpt", Member.data [1, 2]), ("b.kpt", Member.hard "a.kpt"), 
     readL [("b.kpt", Member.hard "a.kpt"), ("a.kpt", Member.data [1, 2])] "b.kpt" = none ∧
     readL [("a.kpt", Member.data [1]), ("l", Member.sym "l")] "l" = none := by decide
 
+/-- A DE-DUPLICATED FOLDER PACKED BY `tar` READS AS THE FOLDER: files that share an inode are stored once and as hard links, and
+  every name reads back the content of its inode — for any number of files, any sharing pattern -/
+theorem dedup_pack_reads_as_dir (content : Nat → Blob) (files : List (String × Nat)) (hn : (files.map (·.1)).Nodup) :
+    ∀ f ∈ files, readL (packInodes content files) f.1 = some (content f.2) := by
+  have inv0 : PackInv content ([], []) [] :=
+    ⟨fun e he => by simp at he, fun f hf => by simp at hf, fun s hs => by simp at hs⟩
+  have := pack_fold_inv content files ([], []) [] inv0 (by simpa using hn)
+  intro f hf
+  exact this.reads f (by simpa using hf)
+
+
+-- non-vacuity: three files, the first two sharing an inode: stored once and as a hard link; every name reads its inode's content
+example : packInodes (fun i => [i, i]) [("a.kpt", 7), ("b.kpt", 7), ("c.kpt", 9)] =
+      [("a.kpt", Member.data [7, 7]), ("b.kpt", Member.hard "a.kpt"), ("c.kpt", Member.data [9, 9])] ∧
+    readL (packInodes (fun i => [i, i]) [("a.kpt", 7), ("b.kpt", 7), ("c.kpt", 9)]) "b.kpt" = some [7, 7] := by decide
+
 end Kapture.C12
